@@ -43,7 +43,11 @@ type Stack struct {
 	// writes to its mailbox connection beyond that many bytes is swallowed (the relay loses it):
 	// with 50, act 1 of the XX handshake arrives and act 3 does not.
 	CutClientWritesAfter int
-	closeOnce            sync.Once
+	// ReuseNoise: one NoiseGrpcConn per side for all connections of the session, as the product does
+	// (it is the gRPC transport-credentials object); otherwise a fresh one per attempt
+	ReuseNoise         bool
+	noiseSrv, noiseCli *mailbox.NoiseGrpcConn
+	closeOnce          sync.Once
 }
 
 // cutConn passes the first `left` bytes written and pretends to write the rest.
@@ -200,7 +204,14 @@ func (s *Stack) ConnectRetry(attempts int) (srv, cli SecureConn, tries int) {
 			}
 			var nc net.Conn
 			if isServer {
-				nc, _, err = mailbox.NewNoiseGrpcConn(s.SrvData).ServerHandshake(c)
+				ng := mailbox.NewNoiseGrpcConn(s.SrvData)
+				if s.ReuseNoise {
+					if s.noiseSrv == nil {
+						s.noiseSrv = ng
+					}
+					ng = s.noiseSrv
+				}
+				nc, _, err = ng.ServerHandshake(c)
 			} else {
 				var hc net.Conn = c
 				if a == 0 && s.CutClientWritesAfter > 0 {
@@ -209,7 +220,14 @@ func (s *Stack) ConnectRetry(attempts int) (srv, cli SecureConn, tries int) {
 					}
 					s.CutClientWritesAfter = 0
 				}
-				nc, _, err = mailbox.NewNoiseGrpcConn(s.CliData).ClientHandshake(s.Ctx, "", hc)
+				ng := mailbox.NewNoiseGrpcConn(s.CliData)
+				if s.ReuseNoise {
+					if s.noiseCli == nil {
+						s.noiseCli = ng
+					}
+					ng = s.noiseCli
+				}
+				nc, _, err = ng.ClientHandshake(s.Ctx, "", hc)
 			}
 			if err == nil {
 				// like gRPC's connection preface: the two ends confirm to each other that
